@@ -166,12 +166,73 @@ def run(tier):
         chk.case(('exc', cls, scen, mux))
         chk.count('target_exception_cases')
         judge(chk, case, 'target-exception', mux=mux)
+    # d2) the child is killed while a result larger than the pipe buffer is in flight (nobody is reading yet): the
+    #     message is cut short on the wire
+    killed_mid_send(chk, tier, wd)
     # e) remote: child killed while the parent-side forwarding thread is paused at each of its lines
     forwarding(chk, tier, wd)
     cleanup(wd)
     chk.assumptions = ['every input carries a unique id, so a result identifies the input that produced it',
                        'mux consumer bound: 8 s without marker or EOF after the worker is dead = blocked consumer (the peer is dead, nothing can arrive)']
     return chk.finish(min_distinct=60)
+
+
+def killed_mid_send(chk, tier, wd):
+    import re
+    jobs = []
+    for cls in ('PersistentProcessWorker', 'PersistentRemoteWorker'):
+        for mux in (False, True):
+            for size in ((200000, 3000000) if tier != 'thorough' else (70000, 200000, 3000000, 20000000)):
+                for settle in (0.3, 0.8):
+                    jobs.append((cls, mux, size, settle))
+
+    def one(job):
+        cls, mux, size, settle = job
+        spec = dict(cls=cls, target='big_uid', targs=[0, 10], inputs=[[1, 100], [2, size], [3, 100]], quiet=False, close_before_point=False,
+                    action=dict(kind='signal', sig='SIGKILL', settle=settle), expect_point=False, wait_timeout=20)
+        if mux:
+            spec['mux'] = True
+        res = run_case('vlib.wcase:lifecycle', spec, os.path.join(wd, 'ms_%s_%d_%d_%s' % (cls, mux, size, settle)), timeout=120)
+        cleanup(res['dir'])
+        return job, res
+
+    for job, res in pmap(one, jobs, 8):
+        cls, mux, size, settle = job
+        case = dict(cls=cls, scen='big-in-flight', k=-1, own=None, res=res, rec_event=None)
+        dg = lp.digest(case)
+        chk.case(('killed-mid-send', cls, mux, size, settle))
+        chk.count('killed_mid_send_cases')
+        if dg['fatal'] or (dg['timed_out'] and not dg['hangs']):
+            chk.inconclusive('case did not complete (%s)' % (dg['fatal'] or 'watchdog'), lp.witness(case, dg))
+            continue
+        probs = []
+        if mux:
+            vals = [m[2] for m in dg['mux'] if m[1]]
+            if dg['mux_end'] not in ('marker', 'eof'):
+                probs.append('mux-consumer-%s' % dg['mux_end'])
+        else:
+            vals = dg['results']
+            if not dg['observations']:
+                probs.append('blocked-%s' % dg['hangs'][0]['name'].split(':')[0] if dg['hangs'] else 'death-not-observed')
+            else:
+                if dg['stream_end'] != 'stop':
+                    probs.append('results_iter-%s' % dg['stream_end'])
+                ae = dg['after_end'] or {}
+                if ae.get('hang'):
+                    probs.append('next_result-blocks-after-death')
+                elif not ae.get('empty'):
+                    probs.append('next_result-after-end-not-Empty')
+        uids = []
+        for v in vals:
+            m = re.match(r'\[(\d+),', v if isinstance(v, str) else repr(v))
+            uids.append(int(m.group(1)) if m else None)
+        if uids != [1, 2, 3][:len(uids)]:
+            probs.append('stream-not-a-prefix')
+        chk.count('killed_mid_send_prefix_%d' % len(uids))
+        if probs:
+            chk.violation('%s:%s:killed-while-large-result-in-flight%s' % (probs[0], kind_of(cls), ':mux' if mux else ''),
+                          '%s killed %.1f s after a %d-byte result was produced (consumer not reading yet): %s; ids read %s' % (cls, settle, size, ', '.join(probs), uids),
+                          dict(lp.witness(case, dg), ids=uids, mux_end=dg['mux_end'], stream_end=dg['stream_end'], after_end=dg['after_end']))
 
 
 def forwarding(chk, tier, wd):
